@@ -796,8 +796,6 @@ def check_files(out):
         if nm in skip or "/" in nm or nm.startswith("d"):
             continue
         e, o = exp.get(nm), out["files_full"].get(nm)
-        if e != o and nm in alt and o == alt[nm]:
-            out["lost_builtin_text"].append(nm)       # exactly the recorded wrong behaviour
-        elif e != o:
+        if e != o:
             bad.append((nm, None if e is None else e[:80].decode("latin1"), None if o is None else o[:80].decode("latin1")))
     return bad
